@@ -315,6 +315,61 @@ MUTANTS = [
     M("benign-close-guard-inverted", LY, CLOSE_IF,
       "        queued = self._write_buffer.get_queued_bytes()\n        if queued == 0:\n"
       "            d = defer.succeed(True)\n        else:\n            d = self._actually_write()\n", None),
+    # -- C45.13 where the repairer's encoding parameters come from
+    M("repair-segsize-computed-for-small-files", RP,                       # seeded C45-H
+      "        d = self._filenode.get_segment_size()\n",
+      "        vcap = self._filenode.get_verify_cap()\n        if vcap.size <= 1024*1024:\n"
+      "            d = defer.succeed(vcap.size + (-vcap.size % vcap.needed_shares))\n        else:\n"
+      "            d = self._filenode.get_segment_size()\n", "C45.13"),
+    M("repair-segsize-fallback-on-failure", RP,
+      "        d.addCallback(_got_segsize)\n        return d\n",
+      "        d.addErrback(lambda f: 128*1024)\n        d.addCallback(_got_segsize)\n        return d\n", "C45.13"),
+    M("repair-callback-called-directly", RP,
+      "        d.addCallback(_got_segsize)\n        return d\n",
+      "        if self._filenode.get_size() <= 3:\n            return defer.maybeDeferred(_got_segsize, 3)\n"
+      "        d.addCallback(_got_segsize)\n        return d\n", "C45.13"),
+    M("repair-segsize-clamped-in-callback", RP,
+      "            vcap = self._filenode.get_verify_cap()\n            k = vcap.needed_shares\n",
+      "            vcap = self._filenode.get_verify_cap()\n            k = vcap.needed_shares\n"
+      "            if segsize > 1024*1024:\n                segsize = 1024*1024 - (1024*1024 % k)\n", "C45.13"),
+    M("repair-segsize-memo-substituted", RP,
+      "        d.addCallback(_got_segsize)\n        return d\n",
+      "        d.addCallback(lambda s: min(s, 1024*1024))\n        d.addCallback(_got_segsize)\n        return d\n", "C45.13"),
+    M("repair-params-preset-by-other-method", RP,
+      "    def set_upload_status(self, upload_status):\n        self.upload_status = upload_status\n",
+      "    def set_upload_status(self, upload_status):\n        self.upload_status = upload_status\n"
+      "        self._encodingparams = (3, 0, 10, 128*1024)\n", "C45.13"),
+    M("benign-repair-segsize-chained", RP,
+      "        d = self._filenode.get_segment_size()\n        def _got_segsize(segsize):",
+      "        def _got_segsize(segsize):", None,
+      edits=[(RP, "        d.addCallback(_got_segsize)\n        return d\n",
+              "        d = self._filenode.get_segment_size().addCallback(_got_segsize)\n        return d\n")]),
+    M("benign-repair-segsize-logged-on-the-way", RP,
+      "        d.addCallback(_got_segsize)\n        return d\n",
+      "        def _note(s):\n            self.log(\"segment size %d\" % s)\n            return s\n"
+      "        d.addCallback(_note)\n        d.addCallback(_got_segsize)\n        return d\n", None),
+    M("benign-repair-params-placeholder", RP,
+      "        self._offset = 0\n", "        self._offset = 0\n        self._encodingparams = None\n", None),
+    M("benign-repair-segsize-alias", RP,
+      "            self._encodingparams = (k, happy, N, segsize)", 
+      "            seg = segsize\n            self._encodingparams = (k, happy, N, seg)", None),
+    # -- C45.14 the Encoder uses what the uploadable (the Repairer) answered
+    M("encoder-computes-params-for-small-files", "src/allmydata/immutable/encode.py",
+      "        d.addCallback(lambda res: eu.get_all_encoding_parameters())\n",
+      "        d.addCallback(lambda res: eu.get_all_encoding_parameters() if self.file_size > 1024*1024\n"
+      "                      else (3, 7, 10, mathutil.next_multiple(self.file_size, 3)))\n", "C45.14"),
+    M("encoder-clamps-segment-size", "src/allmydata/immutable/encode.py",
+      "        k, happy, n, segsize = params\n",
+      "        k, happy, n, segsize = params\n        if segsize > 1024*1024:\n            segsize = mathutil.next_multiple(1024*1024, k)\n",
+      "C45.14"),
+    M("encoder-size-from-status", "src/allmydata/immutable/encode.py",
+      "            self.file_size = size\n", "            self.file_size = size or self._status.get_size()\n", "C45.14"),
+    M("benign-encoder-params-named-callback", "src/allmydata/immutable/encode.py",
+      "        d.addCallback(lambda res: eu.get_all_encoding_parameters())\n",
+      "        def _ask_params(res):\n            return eu.get_all_encoding_parameters()\n        d.addCallback(_ask_params)\n", None),
+    M("benign-encoder-params-via-attribute", "src/allmydata/immutable/encode.py",
+      "        d.addCallback(lambda res: eu.get_all_encoding_parameters())\n",
+      "        d.addCallback(lambda res: self._uploadable.get_all_encoding_parameters())\n", None),
     # -- benign
     M("benign-segsize-is-not-none", ND,
       "        if self.segment_size:\n            return defer.succeed(self.segment_size)\n",
